@@ -49,6 +49,16 @@ theorem exPktOK : PktOK exPkt := ⟨by decide, by decide, by decide, by decide, 
 
 /-! ## 1. the kernel program returns what the userspace matcher decides -/
 
+/-- A rule image that differs from the encoders' image only in bytes the kernel never reads is as good as
+the encoders' image: `Installed` constrains exactly the fields `route()` reads (`readsAs`). -/
+theorem installed_by_encoders (start : Nat) (kp : List KEntry) (tries : List (List Prefix)) (m0 : KMaps)
+    (rulesFit : kp.length ≤ MaxMatchSetLen) (triesFit : tries.length ≤ MaxMatchSetLen)
+    (entriesOK : ∀ k ∈ kp, EntryOK tries.length k) : Installed (installGen .little start kp tries m0) start kp tries :=
+  installGen_installed start kp tries m0 rulesFit triesFit entriesOK
+
+-- bytes the kernel never reads are free: the unused `Value` bytes of a port set may hold anything
+example : readsAs ([80, 0, 80, 0, 9, 9, 9, 9, 9, 9, 9, 9, 9, 9, 9, 9] ++ [0, 3, 1, 0, 0, 0, 0, 0]) ⟨.port 80 80, false, 1, false, 0⟩ = true := by decide
+
 /-- **Headline.** For every installed program (typed array `kp`, LPM sets `tries`, ring start
 `start`), whatever else the maps contain, and every packet: the kernel `route()`, run over the raw
 byte images of the match sets, the LPM slots and the per-address domain bitmap, returns exactly
@@ -69,8 +79,8 @@ theorem routeK_eq_userspace (m : KMaps) (pk : PktK) (start : Nat) (kp : List KEn
 example : Installed exMaps 1023 exKp exTries ∧ (∀ w, exMaps.domainWord exPkt.daddr w = ([] : List Nat).getD w 0) ∧
     matchU exKp exTries [] exPkt = some ⟨5, 0x800, false⟩ ∧
     routeK .little exMaps exPkt = pack OB_ControlPlane 0x800 false := by
-  refine ⟨installGen_installed _ _ _ _ (by decide) (by decide), fun w => rfl, by decide, ?_⟩
-  rw [routeK_eq_userspace exMaps exPkt 1023 exKp exTries [] (installGen_installed _ _ _ _ (by decide) (by decide))
+  refine ⟨installGen_installed _ _ _ _ (by decide) (by decide) exEntriesOK, fun w => rfl, by decide, ?_⟩
+  rw [routeK_eq_userspace exMaps exPkt 1023 exKp exTries [] (installGen_installed _ _ _ _ (by decide) (by decide) exEntriesOK)
     exTriesWF exPktOK (fun w => rfl) exEntriesOK]
   decide
 
@@ -90,7 +100,7 @@ theorem routeK_after_any_reload_history (m0 : KMaps) (old : List Nat) (dom : Lis
     routeK .little { inheritSlots (installGen .little start kp tries m0) old (genSlots start tries.length)
         with domain := dom } pk = expectedK pk (matchU kp tries ubm pk) :=
   routeK_main _ pk start kp tries ubm
-    ((inherit_installed _ start kp tries old (installGen_installed start kp tries m0 rulesFit triesFit)).with_domain dom)
+    ((inherit_installed _ start kp tries old (installGen_installed start kp tries m0 rulesFit triesFit entriesOK)).with_domain dom)
     triesWF pktOK domain entriesOK
 
 /-- `InheritLpmIndices` keeps the live generation installed (the reused-slot skip at work). -/
@@ -385,12 +395,13 @@ def builderAccepts (kp : List KEntry) : Bool := decide (kp.length ≤ MaxMatchSe
 
 /-- … which is exactly the `rulesFit` hypothesis of the theorems, and nothing longer can ever be
 `Installed` (the kernel could only scan a prefix of it). -/
-theorem builder_accepts_iff_installable (start : Nat) (kp : List KEntry) (tries : List (List Prefix)) (ht : tries.length ≤ MaxMatchSetLen) :
+theorem builder_accepts_iff_installable (start : Nat) (kp : List KEntry) (tries : List (List Prefix)) (ht : tries.length ≤ MaxMatchSetLen)
+    (entriesOK : ∀ k ∈ kp, EntryOK tries.length k) :
     builderAccepts kp = true ↔ ∃ m, Installed m start kp tries := by
   unfold builderAccepts
   rw [decide_eq_true_eq]
   constructor
-  · intro h; exact ⟨_, installGen_installed start kp tries KMaps.empty h ht⟩
+  · intro h; exact ⟨_, installGen_installed start kp tries KMaps.empty h ht entriesOK⟩
   · rintro ⟨m, hm⟩; exact hm.bound
 
 example : builderAccepts exKp = true := by decide
@@ -436,7 +447,7 @@ theorem lan_pname_hypothesis_needed : ¬ routeK_eq_userspace_without_H3 := by
   have := h (installGen .little 0 [⟨.processName (0x63 :: List.replicate 15 0), false, 1, false, 0⟩, ⟨.fallback, false, 0, false, 0⟩] [] KMaps.empty)
     ⟨1, 1, 0x63 :: List.replicate 15 0, 0, 0, 40000, 443, 1, 2, 0⟩ 0
     [⟨.processName (0x63 :: List.replicate 15 0), false, 1, false, 0⟩, ⟨.fallback, false, 0, false, 0⟩] [] []
-    (installGen_installed _ _ _ _ (by decide) (by decide)) (by decide)
+    (installGen_installed _ _ _ _ (by decide) (by decide) (by decide)) (by decide)
     (by decide) (by decide) (by decide) (by decide) (by decide) (by decide) (fun w => rfl) (by decide)
   revert this
   decide
